@@ -1,7 +1,7 @@
 """C08 - Pool failure reports are sound: PoolError only when no worker is left."""
 import ast
 
-from ..astutil import (AnalysisError, dotted, calls_in, last_attr, receiver, norm, is_name, walk_local, is_self_attr,
+from ..astutil import (canon, edge_facts, AnalysisError, dotted, calls_in, last_attr, receiver, norm, is_name, walk_local, is_self_attr,
                        loc, short, parent_map)
 from ..cfg import is_flow, path_str
 from .c07 import pool_parts, call_nodes, pool_names, check_enqueue_callers, check_single_append, check_redistribution
@@ -115,15 +115,10 @@ def run(ctx):
     wv = te.params[0] if te.params else 'worker'
     for n in gt.nodes:
         if n.kind == 'test' and isinstance(n.stmt, ast.If) and n.part in (None, 'post'):
-            t = norm(n.stmt.test)
-            if t == f'{wv}.id in self._closed' or t == f'not {wv}.is_alive()':
-                for e in n.succ:
-                    if e.kind == 'true':
-                        evidence.add(e.dst.id)
-            if t == f'{wv}.id not in self._closed' or t == f'{wv}.is_alive()':
-                for e in n.succ:
-                    if e.kind == 'false':
-                        evidence.add(e.dst.id)
+            for e in n.succ:
+                # polarity-free: the edge establishes `worker.id in self._closed` or `not worker.is_alive()`
+                if e.kind in ('true', 'false') and {(f'{wv}.id in self._closed', True), (f'{wv}.is_alive()', False)} & set(edge_facts(e)):
+                    evidence.add(e.dst.id)
     unused = call_nodes(gt, cl.n('handle_unused_data'))
     ctx.floor('hand-over sites in try_enqueue', len(unused), 2)
     pm = parent_map(te.node)
@@ -141,7 +136,7 @@ def run(ctx):
                 elif 'is_alive' in norm(cur.test):
                     role = 'worker-dead'
                 else:
-                    role = 'if:' + norm(cur.test)
+                    role = 'if:' + canon(cur.test)[0]
                 break
             if isinstance(cur, ast.ExceptHandler):
                 role = 'except'
